@@ -1,6 +1,8 @@
 (* C11 — the device reports reader authentication Valid only for a verified, trusted reader.  Pinned statements only. *)
 From Isomdl Require Import Lib.Bytes Lib.Cbor Model.Cose Model.KeySchedule Model.ReaderAuth Model.DeviceReaderAuth
   Spec.ReaderAuthSpec Proofs.KeyScheduleProofs Proofs.DeviceReaderAuthProofs.
+(* for the composition with C12 (below): the X.509 model, the Annex B rule, the composed proofs, C12's witnesses *)
+From Isomdl Require Import Model.X509 Spec.AnnexB Proofs.X509Proofs Proofs.TrustCompose.
 Open Scope N_scope.
 
 (* Valid only if EVERY document request of the message carries a readerAuth (detached payload) whose
@@ -10,22 +12,113 @@ Open Scope N_scope.
 Theorem C11_valid_only_if : forall de erk ho (reqs : list docreq),
   request_status de erk ho reqs = Valid -> reqs <> [] /\ forall r, In r reqs -> authentic de erk ho r.
 Proof. exact valid_only_if. Qed.
+Print Assumptions C11_valid_only_if.
 
 (* and conversely a request whose reader authentication is valid throughout is reported Valid *)
 Theorem C11_complete : forall de erk ho (reqs : list docreq),
   reqs <> [] -> (forall r, In r reqs -> authentic de erk ho r) -> request_status de erk ho reqs = Valid.
 Proof. exact complete. Qed.
+Print Assumptions C11_complete.
 
 Theorem C11_absent_not_valid : forall de erk ho reqs r,
   In r reqs -> dr_reader_auth r = None -> request_status de erk ho reqs <> Valid.
 Proof. exact absent_not_valid. Qed.
+Print Assumptions C11_absent_not_valid.
 
 Theorem C11_untrusted_not_valid : forall de erk ho reqs r,
   In r reqs -> dr_chain_valid r = false -> request_status de erk ho reqs <> Valid.
 Proof. exact untrusted_not_valid. Qed.
+Print Assumptions C11_untrusted_not_valid.
 
 Theorem C11_rab_injective : forall de erk ho items de' erk' ho' items',
   cbor_ok (iso_reader_authentication de erk ho items) -> cbor_ok (iso_reader_authentication de' erk' ho' items') ->
   encode (iso_reader_authentication de erk ho items) = encode (iso_reader_authentication de' erk' ho' items') ->
   de = de' /\ erk = erk' /\ ho = ho' /\ items = items'.
 Proof. exact rab_injective. Qed.
+Print Assumptions C11_rab_injective.
+
+(* ---------- composition with C12: the chain verdict is the Annex B rule ----------
+   [dr_chain_valid r] stands for `ValidationRuleset::MdlReaderOneStep.validate(&x5chain, &self.trusted_verifiers)`
+   contributing no error (device.rs).  Below it is instantiated by C12's model of that call for ANY chain x,
+   registry reg, clock reading now and primitives (hypothesis 2); x, reg, now are related to the request
+   through that equation only.  The other hypotheses are exactly C12_sound's / C12_single_deviation's. *)
+
+(* Valid only if, for each request of the message, the reader certificate (first of its chain) is within its
+   validity, has the B.7 profile and is anchored in a registry entry of purpose ReaderCa; and the signature
+   conjuncts of C11_valid_only_if *)
+Theorem C11_valid_implies_annexb :
+  forall (ski_of_key : bytes -> bytes) (verifies : cert -> cert -> bool)
+         (now : Z) (x : x5chain) (reg : list anchor) (de erk : bytes) (ho : cbor) (reqs : list docreq) (r : docreq),
+    In r reqs ->
+    dr_chain_valid r = match validate ski_of_key verifies MdlReaderOneStep now x reg with [] => true | _ :: _ => false end ->
+    clock_ok now -> inputs_wf MdlReaderOneStep (x_first x) reg ->
+    request_status de erk ho reqs = Valid ->
+    conformant ski_of_key verifies MdlReaderOneStep now (x_first x) reg /\
+    exists c, dr_reader_auth r = Some c /\ c_payload c = None /\
+      dr_x5 r = X5Chain /\ dr_key_ok r = true /\
+      alg_gate (dr_verifier r) (alg_of_protected (c_protected c)) = true /\
+      v_parse (dr_verifier r) (c_sig c) = true /\
+      v_check (dr_verifier r) (iso_reader_tbs (c_protected c) de erk ho (dr_items r)) (c_sig c) = true.
+Proof. exact reader_valid_implies_conformant. Qed.
+Print Assumptions C11_valid_implies_annexb.
+
+(* every deviation of Spec/AnnexB.v (the hypothesis of C12_single_deviation) in the chain of ONE request keeps
+   the whole message from being Valid *)
+Theorem C11_untrusted_never_valid :
+  forall (ski_of_key : bytes -> bytes) (verifies : cert -> cert -> bool)
+         (now : Z) (x : x5chain) (reg : list anchor) (de erk : bytes) (ho : cbor) (reqs : list docreq) (r : docreq),
+    In r reqs ->
+    dr_chain_valid r = match validate ski_of_key verifies MdlReaderOneStep now x reg with [] => true | _ :: _ => false end ->
+    clock_ok now -> deviation ski_of_key verifies MdlReaderOneStep now (x_first x) reg ->
+    request_status de erk ho reqs <> Valid.
+Proof. exact untrusted_reader_never_valid. Qed.
+Print Assumptions C11_untrusted_never_valid.
+
+(* in particular: no trusted verifier at all; only IACA-purpose entries; no reader-CA entry under which the
+   reader certificate's signature verifies; reader-CA entries all expired *)
+Theorem C11_untrusted_named_causes :
+  forall (ski_of_key : bytes -> bytes) (verifies : cert -> cert -> bool)
+         (now : Z) (x : x5chain) (reg : list anchor) (de erk : bytes) (ho : cbor) (reqs : list docreq) (r : docreq),
+    In r reqs ->
+    dr_chain_valid r = match validate ski_of_key verifies MdlReaderOneStep now x reg with [] => true | _ :: _ => false end ->
+    clock_ok now ->
+    (reg = [] \/
+     (forall a, In a reg -> a_purpose a = Iaca) \/
+     (forall a, In a reg -> a_purpose a = ReaderCa -> verifies (x_first x) (a_cert a) = false) \/
+     (forall a, In a reg -> a_purpose a = ReaderCa -> (c_not_after (a_cert a) < now)%Z)) ->
+    request_status de erk ho reqs <> Valid.
+Proof. exact untrusted_reader_named_causes. Qed.
+Print Assumptions C11_untrusted_named_causes.
+
+(* ---------- non-vacuity (witnesses: Proofs/TrustCompose.v section 4) ----------
+   w_req now x reg: a document request whose readerAuth is signed with the key of x's first certificate over
+   the transcript ([1], [2], null), chain verdict computed by C12's model *)
+
+Example C11_ex_valid_implies_annexb_inhabited :
+  let r := w_req w_now (w_chain w_reader_cert) [w_reader_anchor w_iaca] in
+  In r [r] /\
+  dr_chain_valid r = match validate w_ski w_verifies MdlReaderOneStep w_now (w_chain w_reader_cert) [w_reader_anchor w_iaca]
+                     with [] => true | _ :: _ => false end /\
+  clock_ok w_now /\ inputs_wf MdlReaderOneStep (x_first (w_chain w_reader_cert)) [w_reader_anchor w_iaca] /\
+  request_status [1] [2] CNull [r] = Valid.
+Proof. exact w_reader_valid_inhabited. Qed.
+
+(* empty registry; the CA registered as an IACA only; a document signer certificate presented as a reader's *)
+Example C11_ex_untrusted_never_valid_inhabited :
+  (let r := w_req w_now (w_chain w_reader_cert) [] in
+   In r [r] /\
+   dr_chain_valid r = match validate w_ski w_verifies MdlReaderOneStep w_now (w_chain w_reader_cert) [] with [] => true | _ :: _ => false end /\
+   clock_ok w_now /\
+   deviation w_ski w_verifies MdlReaderOneStep w_now (x_first (w_chain w_reader_cert)) [] /\
+   request_status [1] [2] CNull [r] = Invalid) /\
+  (let r := w_req w_now (w_chain w_reader_cert) [w_anchor w_iaca] in
+   dr_chain_valid r = match validate w_ski w_verifies MdlReaderOneStep w_now (w_chain w_reader_cert) [w_anchor w_iaca]
+                      with [] => true | _ :: _ => false end /\
+   deviation w_ski w_verifies MdlReaderOneStep w_now (x_first (w_chain w_reader_cert)) [w_anchor w_iaca] /\
+   request_status [1] [2] CNull [r] = Invalid) /\
+  (let r := w_req w_now (w_chain w_ds) [w_reader_anchor w_iaca] in
+   dr_chain_valid r = match validate w_ski w_verifies MdlReaderOneStep w_now (w_chain w_ds) [w_reader_anchor w_iaca]
+                      with [] => true | _ :: _ => false end /\
+   deviation w_ski w_verifies MdlReaderOneStep w_now (x_first (w_chain w_ds)) [w_reader_anchor w_iaca] /\
+   request_status [1] [2] CNull [r] = Invalid).
+Proof. exact w_untrusted_reader_inhabited. Qed.
